@@ -29,6 +29,7 @@ type genCfg struct {
 	IllTyped   bool    // assignments over every (current type, assigned type, operator)
 	VisitLine  bool    // node bodies start with a line rendering visited()/visited_count()
 	RichExpr   bool    // deeper expression trees with probes
+	Reloop     bool    // the start node ends by jumping to itself twice, with the variables changed
 	OptConds   bool    // most options carry a condition, many of them reading no variable (visit functions, host functions)
 	Markup     float64 // probability that a line carries a literal inside a markup wrapper (text must not change)
 	JumpFaults float64 // probability that a jump fails (unknown node, non-string destination, failing expression)
@@ -48,8 +49,8 @@ var families = map[string]genCfg{
 		Cmds: 4, Calls: 0.3, PendCmds: true, FailCmds: true, Storer: "recording"},
 	"vars": {Family: "vars", MaxNodes: 1, MaxDepth: 1, MaxStmts: 7, Sets: 6, Lines: 2, Ifs: 0.3, IllTyped: true, Storer: "recording"},
 	// (two nodes and jumps: the same expression nodes are evaluated again and again while the variables change)
-	"expr": {Family: "expr", MaxNodes: 2, MaxDepth: 1, MaxStmts: 6, Sets: 2.5, Lines: 4, Ifs: 1, Calls: 1, Jumps: 0.8, RichExpr: true, Faults: 0.12,
-		Storer: "recording"},
+	"expr": {Family: "expr", MaxNodes: 2, MaxDepth: 1, MaxStmts: 6, Sets: 2.5, Lines: 4, Ifs: 1, Calls: 1, Jumps: 0.3, RichExpr: true, Faults: 0.12,
+		Reloop: true, Storer: "recording"},
 	"faults": {Family: "faults", MaxNodes: 3, MaxDepth: 3, MaxStmts: 4, Opts: 2, Ifs: 2, Sets: 2, Jumps: 1, Stops: 0.3, Lines: 3,
 		Cmds: 1.5, Calls: 1, Faults: 0.2, FailCmds: true, Storer: "recording"},
 	"visits": {Family: "visits", MaxNodes: 3, MaxDepth: 2, MaxStmts: 3, Opts: 2, Ifs: 1.5, Sets: 0.5, Jumps: 4, Stops: 0.3, Lines: 1.5,
@@ -174,6 +175,26 @@ func genCase(rnd *rand.Rand, cfg genCfg, id int) *Case {
 			continue
 		}
 		stmts = append(stmts, g.headLine(i))
+		if i == 0 && cfg.Reloop {
+			// the start node is run three times with changed variables: every expression node of it is
+			// evaluated repeatedly (initialisation only on the first entry)
+			init := c.addBody(g.initVars())
+			stmts = append(stmts, Stmt{K: "if", Clauses: []Clause{{Cond: eBin("eq", eCall("visited_count", eStr(g.titles[0])), eNum(0, 1)), Body: init}}})
+			body := g.stmts(1, i)
+			for len(body) > 0 && (body[len(body)-1].K == "jump" || body[len(body)-1].K == "cmd" && body[len(body)-1].Elems[0].S == "stop") {
+				body = body[:len(body)-1]
+			}
+			stmts = append(stmts, body...)
+			again := c.addBody([]Stmt{{K: "jump", E: eStr(g.titles[0])}})
+			stmts = append(stmts,
+				Stmt{K: "set", Var: "x", Op: "+=", E: eNum(1, 1)},
+				Stmt{K: "set", Var: "y", Op: "-=", E: eNum(1, 2)},
+				Stmt{K: "set", Var: "b", Op: "=", E: eNot(eVar("b"))},
+				Stmt{K: "set", Var: "s", Op: "+=", E: eStr("z")},
+				Stmt{K: "if", Clauses: []Clause{{Cond: eBin("lt", eCall("visited_count", eStr(g.titles[0])), eNum(2, 1)), Body: again}}})
+			c.Nodes[i].Body = c.addBody(stmts)
+			continue
+		}
 		if i == 0 {
 			stmts = append(stmts, g.initVars()...)
 		}
